@@ -85,6 +85,8 @@ def jobs(tier, seed):
     J(P=2, C=2, S=1, F=1, order=0, symnames=1)
     if tier == 'thorough':
         J(P=2, C=2, S=2, F=2, order=1, symnames=1); J(P=3, C=1, S=1, F=2, order=2, symnames=1)
+    # the longest single configurations first (a long free name placed in POINT, free point/channel names): they then overlap with the many short ones
+    out.sort(key=lambda j: 0 if (j.get('cfg', {}).get('symnames') or (j.get('cfg', {}).get('ex_group') == 1 and j.get('cfg', {}).get('ex_nlen', 0) >= 4)) else 1)
     return out
 
 UPPER = ('grp.name', 'prm.name')
